@@ -322,6 +322,11 @@ class SymTensor:
         return self._set(lambda i: real_sqrt(f1(i)), "sqrt_")
 
     def copy_(self, o):
+        if self.scalar and self.is_int:
+            if isinstance(o, SymTensor) and o.scalar and o.is_int:
+                self.cell.set(o.v, "copy_")
+                return self
+            raise ShadowAbort("copy_ into an int/bool scalar from a non-int value")
         f2, _ = self._operand(o)
         return self._set(lambda i: f2(i), "copy_")
 
@@ -419,7 +424,9 @@ class FakeTorch:
         if isinstance(x, (SymInt,)) or (isinstance(x, int) and not isinstance(x, bool) and dtype in (self._real.int64, None) and dtype is not None):
             return SymTensor.int_scalar(x, dtype=dtype)
         if isinstance(x, bool):
-            return self._real.tensor(x)
+            return SymTensor.int_scalar(int(x), dtype=self._real.bool)
+        if isinstance(x, SymBool):
+            return SymTensor.int_scalar(SymInt(z3.If(x.t, z3.IntVal(1), z3.IntVal(0))), dtype=self._real.bool)
         return SymTensor.real_scalar(x, dtype=dtype)
 
     def as_tensor(self, x, dtype=None):
@@ -516,3 +523,85 @@ class rebind:
 
 
 _MISSING = object()
+
+
+# ---------------------------------------------------------------------------------------------------------
+# matrix-level (non-pointwise) theory: uninterpreted functions of whole arrays, keyed by the concrete
+# structural arguments (contracted dims, permutation), so that a structurally different call is a different term.
+
+_UF = {}
+
+
+def uf(name, *sorts):
+    k = (name,) + tuple(str(s) for s in sorts)
+    if k not in _UF:
+        _UF[k] = z3.Function(name, *sorts)
+    return _UF[k]
+
+
+def _sig(x):
+    return str(x).replace(" ", "").replace("[", "L").replace("]", "J").replace(",", "_").replace("(", "P").replace(")", "Q")
+
+
+class _AnyResult:
+    """Result of torch.isnan(t) / torch.isinf(t) / t.isnan(): only `.any()` is supported."""
+
+    def __init__(self, kind, t):
+        self.kind, self.tens = kind, t
+
+    def any(self):
+        return SymBool(uf(f"any_{self.kind}", ARR, z3.BoolSort())(self.tens.v if not self.tens.scalar else z3.K(z3.IntSort(), self.tens.at(0))))
+
+
+def _tensordot(a, b, dims):
+    if a.dtype is not None and b.dtype is not None and a.dtype != b.dtype:
+        raise RuntimeError(f"tensordot: expected both tensors to have the same dtype, but got {a.dtype} and {b.dtype}")
+    da, db = [list(d) for d in dims]
+    sa, sb = list(a.size()), list(b.size())
+    shape = [s for i, s in enumerate(sa) if i not in da] + [s for i, s in enumerate(sb) if i not in db]
+    f = uf("tensordot_" + _sig((da, db)) + f"_r{len(sa)}_{len(sb)}", ARR, ARR, ARR)
+    av = a.v if not a.scalar else z3.K(z3.IntSort(), a.at(0))
+    bv = b.v if not b.scalar else z3.K(z3.IntSort(), b.at(0))
+    return SymTensor(f(av, bv), dtype=a.dtype, shape=shape)
+
+
+def _permute(a, perm):
+    perm = list(perm)
+    if perm == list(range(len(perm))):
+        # identity permutation: a view of the same storage
+        return SymTensor(None, dtype=a.dtype, shape=a.size(), cell=a.cell, scalar=a.scalar)
+    f = uf("permute_" + _sig(perm), ARR, ARR)
+    return SymTensor(f(a.v), dtype=a.dtype, shape=[a.size()[p] for p in perm])
+
+
+def _install_matrix_ops():
+    def permute(self, *perm):
+        if len(perm) == 1 and isinstance(perm[0], (list, tuple)):
+            perm = perm[0]
+        return _permute(self, perm)
+
+    def any_(self):
+        return SymBool(uf("any_nonzero", ARR, z3.BoolSort())(self.v if not self.scalar else z3.K(z3.IntSort(), self.at(0))))
+
+    SymTensor.permute = permute
+    SymTensor.any = any_
+    SymTensor.isnan = lambda self: _AnyResult("nan", self)
+    SymTensor.isinf = lambda self: _AnyResult("inf", self)
+
+    def tensordot(self_, a, b, dims):
+        return _tensordot(a, b, dims)
+
+    def zeros(self_, size, dtype=None, device=None):
+        if isinstance(size, (int, SymInt)):
+            size = (size,)
+        return SymTensor(z3.K(z3.IntSort(), z3.RealVal(0)), dtype=dtype, shape=tuple(size))
+
+    FakeTorch.tensordot = tensordot
+    FakeTorch.zeros = zeros
+    FakeTorch.isnan = lambda self_, t: _AnyResult("nan", t)
+    FakeTorch.isinf = lambda self_, t: _AnyResult("inf", t)
+    FakeTorch.min = lambda self_, t: "<min>"
+    FakeTorch.max = lambda self_, t: "<max>"
+
+
+_install_matrix_ops()
